@@ -11,9 +11,18 @@
                add sub mul div      E E -> E   (binary operator or compound assignment)
                adds subs muls divs  E S -> E   sadd ssub smul sdiv : S E -> E
                neg const var<k> assign copyDerivatives clearDerivatives
+               addSelf subSelf mulSelf divSelf   E -> E   (`t op= t`: the argument aliases *this)
                m.<f>                Math.hpp function (unary, pow/pows/spow, atan2/atan2s,
                                     min/max/smin/smax; mins/maxs forward to smin/smax)
         R    : what the real code returned
+    densead.cmp <V> <n> <A> <B> <c> = <bits>
+        the 17 comparison operators (eqE neE ltE gtE leE geE, eqS … geS on (A, c), sne slt sgt sle sge
+        on (c, A)) as a 0/1 string
+    densead.fact <V> <n> <kind> <nVars> <c> <pos> = <R | err>
+        factories: zero one cx vx (createConstantZero/One(x), createConstant(x,c), createVariable(x,c,pos)),
+        c1 v2 (createConstant(c), createVariable(c,pos)), cn vn (… with nVars), blank; err = throws
+    densead.pred <n> <A> <B> <tol> = <bits>
+        MathToolbox<Evaluation>::isSame(A, B, tol), isfinite(A), isnan(A) as a 0/1 string
       -> "ok" when every slot of the *generated* definitions evaluated at Float is within <tol>
          ulp of R (tol = 0: bit-exact), otherwise "diff <model result>".
 -/
@@ -28,6 +37,16 @@ def floatFns : Fns Float :=
     sin := Float.sin, cos := Float.cos, tan := Float.tan, asin := Float.asin, acos := Float.acos,
     atan := Float.atan, sinh := Float.sinh, cosh := Float.cosh, asinh := Float.asinh,
     acosh := Float.acosh, atan2 := Float.atan2, pow := Float.pow }
+
+/-- `MathToolbox<double>`: `std::isnan`, `std::isfinite`, and `isSame(a, b, tol)` =
+`|a-b| < tol || |a-b| / std::max(1.0, |a+b|) < tol` (MathToolbox.hpp) -/
+def floatPreds : Preds Float :=
+  { isnan := Float.isNaN, isfinite := Float.isFinite,
+    isSame := fun a b tol =>
+      let d := a - b
+      let s := Float.abs (a + b)
+      let den := if 1.0 < s then s else 1.0
+      decide (Float.abs d < tol) || decide (Float.abs d / den < tol) }
 
 def hexToNat (cs : List Char) : Option Nat :=
   cs.foldlM (fun acc c => (hexVal c).map fun d => acc * 16 + d) 0
@@ -99,6 +118,10 @@ def step (v : String) (n : Nat) (xs : Array (Array Float)) (ss : Array Float)
         else if f = "maxs" then (Gen.mathSE F "smax" n c a).map fun x => .e x :: r
         else (Gen.mathES F f n a c).map fun x => .e x :: r
       | _ => none)
+  else if tok = "addSelf" || tok = "subSelf" || tok = "mulSelf" || tok = "divSelf" then
+    match stack with
+    | .e a :: r => (Gen.applySelf v tok n a).map fun x => .e x :: r
+    | _ => none
   else if tok = "dup" then
     match stack with
     | x :: r => some (x :: x :: r)
@@ -125,6 +148,46 @@ def splitAt (sep : String) : List String → List String × List String
   | [] => ([], [])
   | t :: r => if t = sep then ([], r) else let (a, b) := splitAt sep r; (t :: a, b)
 
+def cmpNamesE : List String := ["eqE", "neE", "ltE", "gtE", "leE", "geE"]
+def cmpNamesS : List String := ["eqS", "neS", "ltS", "gtS", "leS", "geS"]
+def cmpNamesF : List String := ["sne", "slt", "sgt", "sle", "sge"]
+
+def bit (b : Bool) : String := if b then "1" else "0"
+
+/-- all 17 comparison operators on (A, B, c) as a string of 0/1 -/
+def cmpBits (v : String) (n : Nat) (a b : Array Float) (c : Float) : Option String :=
+  (cmpNamesE.mapM fun nm => (Gen.cmpEE v nm n a b).map bit).bind fun e =>
+  (cmpNamesS.mapM fun nm => (Gen.cmpES v nm n a c).map bit).bind fun s =>
+  (cmpNamesF.mapM fun nm => (Gen.cmpSE v nm n c a).map bit).map fun f =>
+    String.join (e ++ s ++ f)
+
+def oneHot (n : Nat) (base : Array Float) (pos : Nat) : Array Float :=
+  ofFn (setOneHot (toFn (k := n + 1) base) pos)
+
+/-- the static factories: `some none` = the real code throws -/
+def factory (v : String) (n : Nat) (kind : String) (nVars : Int) (c : Float) (pos : Nat) : Option (Option (Array Float)) :=
+  match kind with
+  | "zero" => (Gen.factory0 v "constZero" n).map some
+  | "one" => (Gen.factory0 v "constOne" n).map some
+  | "cx" => (Gen.factory1 v "constX" n c).map some
+  | "vx" => (Gen.factory1 v "varXBase" n c).map fun b => some (oneHot n b pos)
+  | "c1" => if Gen.hasCreateConstant1 v then (Gen.applyS v "const" n c).map some else some none
+  | "v2" => if Gen.hasCreateVariable2 v then (Gen.applyS v "varBase" n c).map fun b => some (oneHot n b pos) else some none
+  | "cn" =>
+    match Gen.factoryArity v n with
+    | some ar => if nVars != ar then some none else (Gen.applyS v "const" n c).map some
+    | none => if nVars = (n : Int) then (Gen.applyS v "const" n c).map some else none
+  | "vn" =>
+    if Gen.notTranslatable.contains (v ++ ".createVariableN") then none else
+    match Gen.factoryArity v n with
+    | some ar => if nVars != ar then some none else (Gen.applyS v "varBase" n c).map fun b => some (oneHot n b pos)
+    | none => if nVars = (n : Int) then (Gen.applyS v "varBase" n c).map fun b => some (oneHot n b pos) else none
+  | "blank" => if Gen.blankIsZero v then some (some (Array.replicate (n + 1) 0.0)) else none
+  | _ => none
+
+def bitsEq (a b : Array Float) : Bool :=
+  a.size = b.size && (a.toList.zip b.toList).all fun (g, w) => g.toBits == w.toBits
+
 def handle (op : String) (args : List String) : String :=
   match op, args with
   | "densead.eval", v :: n :: tol :: nx :: ns :: rest =>
@@ -146,6 +209,37 @@ def handle (op : String) (args : List String) : String :=
           | none => "unsupported"
       | _, _, _ => "bad-op"
     | _, _, _, _ => "bad-op"
+  | "densead.cmp", [v, n, a, b, c, "=", want] =>
+    match n.toNat? with
+    | some n =>
+      match parseVec n a, parseVec n b, parseF c with
+      | some a, some b, some c =>
+        match cmpBits v n a b c with
+        | some got => if got = want then "ok" else "diff " ++ got
+        | none => "unsupported"
+      | _, _, _ => "bad-op"
+    | none => "bad-op"
+  | "densead.fact", [v, n, kind, nVars, c, pos, "=", want] =>
+    match n.toNat?, nVars.toInt?, parseF c, pos.toNat? with
+    | some n, some nVars, some c, some pos =>
+      match factory v n kind nVars c pos with
+      | none => "unsupported"
+      | some none => if want = "err" then "ok" else "diff err"
+      | some (some got) =>
+        match parseVec n want with
+        | some w => if bitsEq got w then "ok" else "diff " ++ showVec got
+        | none => "diff " ++ showVec got
+    | _, _, _, _ => "bad-op"
+  | "densead.pred", [n, a, b, tol, "=", want] =>
+    match n.toNat? with
+    | some n =>
+      match parseVec n a, parseVec n b, parseF tol with
+      | some a, some b, some tol =>
+        let got := bit (Gen.M.isSame (n := n) floatPreds (toFn a) (toFn b) tol) ++
+          bit (Gen.M.isfinite (n := n) floatPreds (toFn a)) ++ bit (Gen.M.isnan (n := n) floatPreds (toFn a))
+        if got = want then "ok" else "diff " ++ got
+      | _, _, _ => "bad-op"
+    | none => "bad-op"
   | "densead.untranslatable", [] => " ".intercalate Gen.notTranslatable
   | _, _ => "bad-op"
 
